@@ -195,6 +195,13 @@ Definition watch_passing (prefix : str) (status : list str) (strict : bool) (che
 Definition svc_config (prefix : str) (status : list str) (strict : bool)
            (checks : list hcheck) (catalog : list centry) : outcome str :=
   make_config prefix catalog (watch_passing prefix status strict checks).
+(* ServiceMonitor.Watch as a whole: the blocking-query loop processes one snapshot of the
+   registry completely (health state -> tag filter -> passing -> catalog lookups -> config ->
+   send on the updates channel) before it issues the next query, so the configs are delivered
+   one per observed snapshot and in snapshot order *)
+Definition watch_deliveries (prefix : str) (status : list str) (strict : bool)
+           (snaps : list (list hcheck * list centry)) : list (outcome str) :=
+  map (fun sn => svc_config prefix status strict (fst sn) (snd sn)) snaps.
 (* the same round with the filter as it was before fdfd589 (refutation theorem only) *)
 Definition svc_config_unrepaired (prefix : str) (status : list str) (strict : bool)
            (checks : list hcheck) (catalog : list centry) : outcome str :=
